@@ -234,3 +234,98 @@ func generalPosition(ts []float64, dnorm, scale float64) bool {
 	}
 	return true
 }
+
+// runOnSurface: origins exactly on the surface (the hit point of another ray, as computed in floating
+// point), directions into / out of / along the shape: every reported hit must still lie on the surface.
+// (This is where Capsule.RayCollisions reported "phantom" hits with the inner half of an end sphere.)
+func runOnSurface(c *hlib.Ctx, n int) {
+	for i := 0; i < n; i++ {
+		var sh *shape3
+		switch c.Rng.Intn(4) {
+		case 0, 1:
+			sh = mkCapsule(c)
+		case 2:
+			sh = mkCylinder(c)
+		default:
+			sh = mkSphere(c)
+		}
+		min, max := sh.col.Min(), sh.col.Max()
+		o2 := randIn3(c, min, max, 1.0)
+		r2 := &model3d.Ray{Origin: o2, Direction: randIn3(c, min, max, 0).Sub(o2)}
+		rc, ok := sh.col.FirstRayCollision(r2)
+		if !ok || !finite(rc.Scale) {
+			continue
+		}
+		origin := o2.Add(r2.Direction.Scale(rc.Scale))
+		dir := randIn3(c, min, max, 0).Sub(origin)
+		switch c.Rng.Intn(3) {
+		case 0:
+			dir = randUnit3(c)
+		case 1:
+			var arr [3]float64
+			arr[c.Rng.Intn(3)] = float64(1 - 2*c.Rng.Intn(2))
+			dir = model3d.NewCoord3DArray(arr)
+		}
+		if dir.Norm() < 1e-9 {
+			continue
+		}
+		dir = dir.Normalize().Scale(nonUnitScale(c))
+		r := &model3d.Ray{Origin: origin, Direction: dir}
+		o := observe3(sh.col, r)
+		checkContract(c, "3", sh.kind, descRay3(sh.name, r, "on-surface/second"), o)
+		if o.failure != "" {
+			continue
+		}
+		for _, t := range o.ts {
+			if !finite(t) {
+				continue
+			}
+			p := r.Origin.Add(r.Direction.Scale(t))
+			reach := r.Origin.Dist(p) + sh.scale + p.Norm()
+			res := math.Abs(sh.resid(p))
+			c.Stat("onsurface.hits."+sh.kind, 1)
+			if !(res <= 1e-7*reach) {
+				c.PropFail("c07:hit-not-on-surface/"+sh.kind,
+					fmt.Sprintf("t=%v point=%v residual=%v %s", t, p, res, descRay3(sh.name, r, "on-surface/second")))
+			}
+		}
+	}
+	for i := 0; i < n/2; i++ {
+		sh := mkCapsule2(c)
+		min, max := sh.col.Min(), sh.col.Max()
+		o2 := randIn2(c, min, max, 1.0)
+		r2 := &model2d.Ray{Origin: o2, Direction: randIn2(c, min, max, 0).Sub(o2)}
+		rc, ok := sh.col.FirstRayCollision(r2)
+		if !ok || !finite(rc.Scale) {
+			continue
+		}
+		origin := o2.Add(r2.Direction.Scale(rc.Scale))
+		dir := randIn2(c, min, max, 0).Sub(origin)
+		if c.Rng.Intn(3) == 0 {
+			dir = model2d.X(float64(1 - 2*c.Rng.Intn(2)))
+		}
+		if dir.Norm() < 1e-9 {
+			continue
+		}
+		dir = dir.Normalize().Scale(nonUnitScale(c))
+		r := &model2d.Ray{Origin: origin, Direction: dir}
+		o := observe2(sh.col, r)
+		checkContract(c, "2", sh.kind, descRay2(sh.name, r, "on-surface/second"), o)
+		if o.failure != "" {
+			continue
+		}
+		for _, t := range o.ts {
+			if !finite(t) {
+				continue
+			}
+			p := r.Origin.Add(r.Direction.Scale(t))
+			reach := r.Origin.Dist(p) + sh.scale + p.Norm()
+			res := math.Abs(sh.resid(p))
+			c.Stat("onsurface.hits."+sh.kind, 1)
+			if !(res <= 1e-7*reach) {
+				c.PropFail("c07:hit-not-on-surface/"+sh.kind,
+					fmt.Sprintf("t=%v point=%v residual=%v %s", t, p, res, descRay2(sh.name, r, "on-surface/second")))
+			}
+		}
+	}
+}
